@@ -111,16 +111,21 @@ func StartKeygen(group curve.Curve, receiver bool, selfID, otherID party.ID, sec
 			Group:            group,
 		}
 
-		helper, err := round.NewSession(info, sessionID, nil)
-		if err != nil {
-			return nil, fmt.Errorf("keygen.StartKeygen: %w", err)
-		}
-
 		refresh := true
 		if secretShare == nil && public == nil {
 			secretShare = sample.Scalar(rand.Reader, group)
 			refresh = false
 		}
+		// a refresh is a different protocol from a key generation: it gets its own ID (and hence SSID)
+		if refresh {
+			info.ProtocolID = "doerner/refresh"
+		}
+
+		helper, err := round.NewSession(info, sessionID, nil)
+		if err != nil {
+			return nil, fmt.Errorf("keygen.StartKeygen: %w", err)
+		}
+
 		publicShare := secretShare.ActOnBase()
 
 		if receiver {
